@@ -13,6 +13,9 @@ class Timestamp:
         self.nsec: int = int(nsec)
 
     def __str__(self) -> str:
+        if self.nsec < 0:
+            # sec < 0 keeps nsec negated: Timestamp(-1, 500000000) is -1.5, written -1.500000000
+            return f"-{-self.sec}.{-self.nsec:09d}"
         return f"{self.sec}.{self.nsec:09d}"
 
     def __repr__(self) -> str:
